@@ -3,7 +3,7 @@ from analysis.facts import norm_path
 from analysis.engine import rule, AnchorMissing
 from analysis import cfg
 from analysis.sym import sym, show_in, nosite, peel, core, walk, ret_values, args_of, guards_at, atoms_at, \
-    variant_facts_at, symbolizer, simplify, memory_reads
+    variant_facts_at, symbolizer, simplify, memory_reads, init_value
 from analysis.pat import match, Call, Cap, ANY, Pred, Const, has, chain_names
 from rules.common import closure_of
 
@@ -381,6 +381,15 @@ def cyclic_find_sites(ctx, b, arm=None):
         if not (x[0] == 'call' and x[1].endswith('::find') and len(x[2]) == 2):
             continue
         segs = seq_of_iter(ctx.facts, b, x[2][0])
+        if segs is not None and len(segs) == 2 and all(s_.kind == 'each' and not s_.conds and core(s_.elem) == ITEM for s_ in segs):
+            # the ring walk (start..n).chain(0..start).find(|i| !finished[i]): both halves together are all of 0..n, whatever `start` is
+            r1, r2 = range_bounds(segs[0].src), range_bounds(segs[1].src)
+            if r1 is not None and r2 is not None and r2[0] == 0 and not isinstance(r1[1], int) and match(core(init_value(b, r1[1])), LEN) and \
+                    nosite(core(r1[0])) == nosite(core(r2[1])) if not isinstance(r1[0], int) and not isinstance(r2[1], int) else False:
+                pred = core(apply_fn(ctx.facts, x[2][1], (ITEM,)))
+                if pred[0] == 'un' and pred[1] == 'Not' and match(core(pred[2]), ('index', SELF_FIN, ITEM)):
+                    out.append(t)
+            continue
         if segs is None or len(segs) != 1 or segs[0].kind != 'each' or segs[0].conds:
             continue
         rb = range_bounds(segs[0].src)
